@@ -518,7 +518,11 @@ def main():
             rep = dict(property=prop, obligation=o.id, harness=o.target, features=o.features, backend="kani",
                        failed_checks=obs, functions=o.fns)
             suffix = ""
-            if test is not None:
+            if test is not None and o.no_playback:
+                suffix = " no-failing-input-found"
+                rep.update(inputs=decode_vals(test["text"]), note="not replayed natively: " + o.no_playback, verifier_output=out[-4000:])
+                rpath.write_text(json.dumps(rep, indent=1))
+            elif test is not None:
                 rep.update(playback_test=test["text"], inputs=decode_vals(test["text"]),
                            replay_cmd=f"/verif/bin/check {prop} --replay {rpath}")
                 pending_playback.append((o.target, test["text"], rep, rpath, len(violations)))
